@@ -24,26 +24,26 @@ type EntS struct {
 	M uint16
 }
 type Cmd struct {
-	Args *[]string // nil = nil slice
+	Args  *[]string // nil = nil slice
 	Exact bool
 }
 
 // Cav is one caveat of the model. Kind is the Coq constructor name.
 type Cav struct {
-	Kind  string
-	ID    uint64 // id / mask-like single number
-	Mask  uint64
-	NB    int64
-	NA    int64
-	S     [3]string
-	RSN   []EntN
-	RSS   []EntS
-	Strs  *[]string
-	Cmds  *[]Cmd
-	Ifs   *[]Cav
-	B1    *[]byte
-	B2    *[]byte
-	Body  []byte
+	Kind string
+	ID   uint64 // id / mask-like single number
+	Mask uint64
+	NB   int64
+	NA   int64
+	S    [3]string
+	RSN  []EntN
+	RSS  []EntS
+	Strs *[]string
+	Cmds *[]Cmd
+	Ifs  *[]Cav
+	B1   *[]byte
+	B2   *[]byte
+	Body []byte
 }
 
 func sortN(e []EntN) []EntN {
